@@ -574,6 +574,41 @@ func genPool(g *lp.Gen) {
 	g.P("S")
 }
 
+// genUpload: request bursts larger than what one round of reads takes (MaxConnReadTimesPerEventLoop x ReadBufferSize,
+// 3 x 64 KiB by default): a POST body of 3 x ReadBufferSize + 1 … 1 MiB with more requests pipelined right behind it
+func genUpload(g *lp.Gen, cid int, rbuf int) {
+	kind := g.Pick("raw", "raw", "nbc")
+	g.P("K %d %s sched=pspsfwfw slow=0 seg=0 to0=0", cid, kind)
+	rb := 65536
+	if rbuf > 0 {
+		rb = rbuf
+	}
+	n := 1 + g.Intn(3)
+	rid := 0
+	for i := 0; i < n; i++ {
+		size := 3*rb + 1 + g.Intn(5*rb)
+		switch g.Intn(4) {
+		case 0:
+			size = g.PickInt(100000, 262144, 1<<20)
+		case 1:
+			if size < 1<<20 {
+				size = g.PickInt(3*rb+1, 4*rb, 1<<20)
+			}
+		}
+		if size > 1<<20 {
+			size = 1 << 20
+		}
+		r := &reqSpec{rid: rid, v: "11", method: "POST", st: 200, sz: g.PickInt(0, 30, 2000), fr: g.Pick("cl", "au"), w: 1, rb: size, rbc: g.Chance(1, 4), sync: i == 0 || g.Chance(1, 3)}
+		emitQ(g, cid, r)
+		rid++
+		for k := g.Intn(3); k > 0; k-- { // small requests pipelined right behind the upload
+			emitQ(g, cid, &reqSpec{rid: rid, v: "11", method: "GET", st: 200, sz: g.PickInt(0, 50, 900), fr: g.Pick("cl", "au", "ch"), w: 1})
+			rid++
+		}
+	}
+	emitQ(g, cid, &reqSpec{rid: rid, v: "11", conn: []string{"close"}, method: "GET", st: 200, sz: 9, fr: "cl", w: 1, sync: g.Chance(1, 2)})
+}
+
 func gen(g *lp.Gen) {
 	thorough := g.Tier == "thorough"
 	seed := int(g.Rng.Int63()) // consume one value so streams differ per shard even for n=0
@@ -595,9 +630,10 @@ func gen(g *lp.Gen) {
 		genPool(g) // cheap (in-process, no network): one bookkeeping case in front of every network case
 		c := cells[(cs+off)%len(cells)]
 		ep := c.epoll
-		// (AsyncReadInPoller variants "eta"/"osa" are understood by exec but not generated: with the default
-		// IOExecute the read task gets zero-length buffers from taskpool.NewIO(0, 0, 0) and spins on read(fd, "", 0) —
-		// a read-path matter (C02), see docs/e2e.md)
+		// engine dimension asyncread: ET and ET+ONESHOT cells with AsyncReadInPoller (default IO task pool)
+		if ep != "lt" && g.Chance(1, 2) {
+			ep += "a"
+		}
 		conc := 1 + g.Intn(12)
 		if g.Chance(1, 5) {
 			conc = 1 + g.Intn(3)
@@ -616,14 +652,18 @@ func gen(g *lp.Gen) {
 		if c.iomod == "mx" {
 			maxblk = 1 + conc/2
 		}
-		rbuf := g.PickInt(0, 0, 4096, 1024, 257)
+		rbuf := g.PickInt(0, 0, 4096, 8192, 4096, 1024, 257)
 		t := 0
 		if c.tls {
 			t = 1
 		}
 		g.P("C %s %d %s conc=%d maxblk=%d rbuf=%d", c.iomod, t, ep, conc, maxblk, rbuf)
 		for i := 0; i < conc; i++ {
-			genHist(g, cid, thorough)
+			if g.Chance(1, 7) || (strings.HasSuffix(ep, "a") && g.Chance(1, 4)) {
+				genUpload(g, cid, rbuf)
+			} else {
+				genHist(g, cid, thorough)
+			}
 			cid++
 		}
 	}
@@ -847,14 +887,6 @@ func handler(w http.ResponseWriter, r *http.Request) {
 	}
 }
 
-// ioExecute: read-task executor with real buffers for the AsyncReadInPoller variants
-func ioExecute(f func(*[]byte)) {
-	go func() {
-		buf := make([]byte, 65536)
-		f(&buf)
-	}()
-}
-
 var (
 	srvMu   sync.Mutex
 	servers = map[string]*server{}
@@ -870,9 +902,7 @@ func getServer(c cellT) (*server, error) {
 	mod, oneshot, async := epollConf(c.epoll)
 	conf := nbhttp.Config{Network: "tcp", Handler: http.HandlerFunc(handler), NPoller: 2, EpollMod: mod, EPOLLONESHOT: oneshot,
 		AsyncReadInPoller: async, KeepaliveTime: 90 * time.Second, ReadBufferSize: c.rbuf, BlockingReadBufferSize: c.rbuf}
-	if async {
-		conf.IOExecute = ioExecute
-	}
+
 	switch c.iomod {
 	case "nb":
 		conf.IOMod = nbhttp.IOModNonBlocking
@@ -899,9 +929,7 @@ func getServer(c cellT) (*server, error) {
 		s.addr = eng.Addrs[0]
 	}
 	cliConf := nbhttp.Config{NPoller: 1, EpollMod: mod, EPOLLONESHOT: oneshot, AsyncReadInPoller: async}
-	if async {
-		cliConf.IOExecute = ioExecute
-	}
+
 	cli := nbhttp.NewEngine(cliConf)
 	if err := cli.Start(); err != nil {
 		eng.Stop()
@@ -1834,9 +1862,7 @@ func (s *server) runNbx(h *hist) {
 	gt := &gate{}
 	mod, oneshot, async := epollConf(s.cell.epoll)
 	nbxConf := nbhttp.Config{NPoller: 1, EpollMod: mod, EPOLLONESHOT: oneshot, AsyncReadInPoller: async, ServerExecutor: gt.exec}
-	if async {
-		nbxConf.IOExecute = ioExecute
-	}
+
 	eng := nbhttp.NewEngine(nbxConf)
 	if err := eng.Start(); err != nil {
 		h.fail(true, "c10-client-callback", "client engine start: %v", err)
